@@ -6,7 +6,7 @@ NoOrphan(D) is preserved, so a later call never takes the 'return the unfinished
 algorithm again); plus the client polling loop of VizierClient.get_suggestions.
 """
 from pyvc import report
-from contracts import suggest, earlystop
+from contracts import suggest, earlystop, pythia_frame
 
 
 def main(tier):
@@ -18,10 +18,12 @@ def main(tier):
               'abstract DataStore contract (Appendix A)', 'resource-name algebra (DESIGN 4.3)'):
         chk.trust(t)
     for a in ('resource names are canonical', 'timestamps are unconstrained', 'logging has no effect',
-              'exceptions raised by the pyvizier converters on Pythia output are outside the model (converters assumed total, C09)'):
+              'exceptions raised by the pyvizier converters on Pythia output are outside the model (converters assumed total, C09)',
+              'a policy reaches the Vizier service only through the ServicePolicySupporter it is given (the supporter class is scanned by the frame obligation)'):
         chk.assume(a)
     inl = set()
     inl |= suggest.run(chk, 'C06', tier)
     inl |= earlystop.run(chk, 'C06', tier)
+    pythia_frame.run(chk, 'C06')
     chk.extra['inlined_real_functions'] = sorted(inl)
     return chk.finish(min_obligations=20)
